@@ -37,7 +37,7 @@ def describe(tier):
         "over {0,1} and EVERY common value 0..2 per dimension; calls: count/valid_count/sum/mean x policy x a weight/fact menu (none, scalar, array with missing; "
         "1- and 2-column facts with a missing cell). Checks for both cube types: result.shape == extra extents (dimension order, then axis order) + category extents "
         "(+ fact columns); for every extra-coordinate combination the block equals the same aggregate computed by the library from the harness-sliced 1-D "
-        "dimensions; index cube and array cube agree; the statistics only the array cube offers (max/min, quantile, stddev, covariance, corrcoef; 1- and 2-column facts, weighted and not) are checked the same way, "
+        "dimensions; index cube and array cube agree; the array cube over the same dimension arrays in Fortran order, as a transposed view of axes-first data and as nested lists gives the same result; the statistics only the array cube offers (max/min, quantile, stddev, covariance, corrcoef; 1- and 2-column facts, weighted and not) are checked the same way, "
         "block by block, with their trailing column / matrix axes. Non-trivial: two different extra coordinates select slices with different data. Distinct = distinct (config, data, commons, call).",
         "bounds": {"configs": [(n, ex) for n, ex in CONFIGS[tier]], "E": E},
         "exhaustive": True,
@@ -150,6 +150,23 @@ def check(denses, commons, N, acc, base, only_call=None):
             msg = eq(full["ccube"], full["xcube"], grand)
             if msg:
                 acc.violation("both:%s:disagree" % agg, case, "index cube vs array cube: %s" % msg)
+        if "xcube" in full and any(d.ndim >= 2 for d in denses):
+            # the same dimension arrays in other memory layouts / representations: Fortran order, a transposed view of data kept
+            # axes-first, nested lists
+            for lname, conv in (("fortran", numpy.asfortranarray), ("axes-first-view", lambda d: numpy.ascontiguousarray(numpy.moveaxis(d, 0, -1)).transpose((d.ndim - 1,) + tuple(range(d.ndim - 1))) if d.ndim >= 2 else d),
+                                ("lists", lambda d: d.tolist())):
+                if lname == "lists" and N == 0:
+                    continue    # an empty nested list no longer says how many columns there are: not the same dimension
+                try:
+                    f2, _, _, _, w2, _, _ = c03.realise(N, ws, fs)
+                    rl = Q.normalise(Q.call_cube(xcube([conv(d) for d in denses], interacting_shape=shape), agg, f2, w2, ignore, Q.NaN), Q.NaN)
+                except Exception as e:  # noqa
+                    acc.violation("xcube:%s:%s:raised" % (agg, lname), case, repr(e))
+                    continue
+                acc.count("xcube_layout_evals")
+                msg = eq(rl, full["xcube"], grand)
+                if msg:
+                    acc.violation("xcube:%s:%s:differs" % (agg, lname), case, "array cube over the same dimensions in %s layout: %s" % (lname, msg))
         yield call
 
 
